@@ -31,7 +31,9 @@ func installFiles(cfg [][]byte, files [][]byte) (*processors.Context, error) {
 			dir = "exclude"
 		}
 		name := string(files[i+1])
-		if !strings.HasSuffix(name, ".ra") {
+		if strings.HasPrefix(name, "=") {
+			name = name[1:] // a literal file name (an extension-less sibling of an include file)
+		} else if !strings.HasSuffix(name, ".ra") {
 			name += ".ra"
 		}
 		p := filepath.Join(root, "regex-assembly", dir, name)
